@@ -223,7 +223,11 @@ def move_staticmethod_static_scope(source: str, preserve: Collection[str]) -> st
                 continue
             name_replacements[(classdef.name, funcdef.name)] = new_name
 
-        moved_function_names = {fname: name for ((_, fname), name) in name_replacements.items()}
+        moved_function_names = {
+            fname: name
+            for ((cname, fname), name) in name_replacements.items()
+            if cname == classdef.name
+        }
 
         for node in class_attribute_accesses:
             classdef_aliases = [classdef.name]
